@@ -661,6 +661,8 @@ func runC14(w *World, r *Report) {
 	r.refile("C16/compile", "C14/target-pairing", func(sr *Report) { c16Compile(w, sr) }, func(o Obligation) bool {
 		return strings.Contains(o.Key, "receives the files of") || strings.Contains(o.Key, "operands resolve")
 	})
+	// what one target leaves on disk is not touched on behalf of another: under compile only the writer mutates the file system
+	r.refile("C16/compile-writes-only-in-writer", "C14/compile-writes-only-in-writer", func(sr *Report) { c16Compile(w, sr) }, nil)
 
 	// ---- driver: generator instances are per-closure, closures capture only the model ----
 	const ruleDrv = "C14/driver"
